@@ -16,6 +16,7 @@ package bigxy
 //@   requires len(vectorOrigin) >= 2 && len(vectorEnd) >= 2 && len(point) >= 2
 //@   ensures res == 2 || res == sgnOf(cross2(vectorOrigin[0], vectorOrigin[1], vectorEnd[0], vectorEnd[1], point[0], point[1]))
 //@   modifies nothing
+//@   at stmt16: assert [shewchuk-bound] detsum == abs(detleft) + abs(detright) && errbound == dpSafeEpsilon * (abs(detleft) + abs(detright))
 
 // the extended-precision branch, with big.Float values as exact reals (trusted model of math/big; the
 // precision actually carried by the temporaries is not part of this contract)
